@@ -502,6 +502,12 @@ pub fn run(opts: &Opts) -> Report {
             ctor_case(&mut c, ctor, v, false);
         }
     }
+    // the spellings bool() knows, and their neighbours
+    for s in ["1", "t", "true", "TRUE", "True", "0", "f", "false", "FALSE", "False", "T", "F", "tRUE", "fALSE", "yes", "no", "00", "01", " true", "false ", "truefalse", "ｔrue"] {
+        for ctor in CTORS.iter() {
+            ctor_case(&mut c, ctor, &CelValue::String(s.to_string()), false);
+        }
+    }
     c.rep.exhaustive = true;
     c.rep.sample(json!({"pool_values": values.len(), "constructors": CTORS.len()}));
 
